@@ -17,7 +17,7 @@ if [ -n "${RACE:-}" ]; then
   # free -race mode: count race reports whose two accesses are both in tsuna/gohbase code
   cd /tmp; W=${W:-8}
   for w in $(seq 0 $((W-1))); do
-    ( GOMAXPROCS=4 "$S/bin/simworker-race" -free -profile "$PROF" -from $((FROM+w)) -stride $W -n $((N/W)) -prop __races_only__ > "$S/out.$w" 2> "$S/err.$w" ) &
+    ( GOMAXPROCS=4 "$S/bin/simworker-race" ${RACECTL:--free} -profile "$PROF" -from $((FROM+w)) -stride $W -n $((N/W)) -prop __races_only__ > "$S/out.$w" 2> "$S/err.$w" ) &
   done
   wait
   runs=$(cat "$S"/out.* | grep SUMMARY | cut -c9- | jq -s 'map(.runs)|add')
